@@ -43,6 +43,7 @@ type Step struct {
 	Crash int            `json:"crash,omitempty"` // ordinal of the visible call before which the process dies
 	Expect string        `json:"expect,omitempty"` // "kind verb id" of the call the specification expects the fault to hit
 	Proc  int            `json:"proc,omitempty"`
+	Via   string         `json:"via,omitempty"` // "cli": run through pkg/cmd (command line) instead of the action API
 	// environment steps
 	Edit    *EditStep `json:"edit,omitempty"`
 	OobDel  string    `json:"oobdel,omitempty"`
@@ -432,6 +433,15 @@ func (e *Env) RunOp(proc, i int, s Step) (res OpResult) {
 		f = map[string]any{}
 	}
 	timeout := 5 * time.Second
+	if s.Via == "cli" {
+		if len(e.Lib[s.Chart].CRDs) > 0 {
+			cfg.RESTClientGetter = &simcluster.Getter{F: &simcluster.Factory{RT: e.Sim.Transport(proc), Namespace: RelNS}}
+		}
+		if err := e.runCLI(cfg, s); err != nil {
+			res.Err = err.Error()
+		}
+		return res
+	}
 	switch s.Op {
 	case "install":
 		ch, err := BuildChart(s.Chart, e.Lib[s.Chart])
